@@ -6,7 +6,7 @@ Values are exact (Python integers wrapped to 64 bits), objects have identity (po
 copy construction and assignment copy), every container access is bounds-checked: an access outside a
 container is reported as OutOfBounds (positive evidence of a memory error), a checked accessor (`at`) that
 would throw raises Thrown.  Anything not modelled raises Broken (exit 2)."""
-from absint import Evaluator, Thrown
+from absint import Evaluator, Thrown, Ret, LayerEnv
 from zw import Broken, unwrap
 
 M64 = (1 << 64) - 1
@@ -218,25 +218,48 @@ class RIt(It):
 
 
 class SetObj(Vec):
-    """std::set over values with a natural order (the rules that use it model elements as integers or tuples): sorted, no duplicates"""
+    """std::set over values with a natural order (integers, tuples, strings, handles by address): sorted, no duplicates"""
     def __init__(self, items=None):
-        Vec.__init__(self, sorted(set(items or [])), "set")
+        Vec.__init__(self, [], "set")
+        for x in items or []:
+            self.insert(x)
 
     def copy_value(self):
         return SetObj(self.items)
 
-    def insert(self, x):
+    def _pos(self, x):
         import bisect
-        i = bisect.bisect_left(self.items, x)
-        if i < len(self.items) and self.items[i] == x:
+        ks = [_okey(y) for y in self.items]
+        i = bisect.bisect_left(ks, _okey(x))
+        return i, (i < len(ks) and ks[i] == _okey(x))
+
+    def insert(self, x):
+        i, hit = self._pos(x)
+        if hit:
             return (It(self, i), False)
         self.items.insert(i, x)
         return (It(self, i), True)
 
     def find(self, x):
-        import bisect
-        i = bisect.bisect_left(self.items, x)
-        return It(self, i if i < len(self.items) and self.items[i] == x else len(self.items))
+        i, hit = self._pos(x)
+        return It(self, i if hit else len(self.items))
+
+
+class Opt:
+    """nonstd::optional<T>: empty or holding a value; a value of a repository class is destroyed (its destructor interpreted) when
+    the optional is reset, emptied by assigning nullopt, or re-emplaced"""
+    def __init__(self, elem_t, val=None):
+        self.elem_t, self.val = elem_t, val
+
+    @property
+    def addr(self):
+        return id(self)
+
+    def copy_value(self):
+        return Opt(self.elem_t, self.val.copy_value() if hasattr(self.val, "copy_value") else self.val)
+
+    def __repr__(self):
+        return "optional(%r)" % (self.val,) if self.val is not None else "nullopt"
 
 
 def _okey(x):
@@ -249,6 +272,10 @@ def _okey(x):
         return (2, tuple(_okey(y) for y in x))
     if x is None:
         return (1, 0)
+    if isinstance(x, StdStr):
+        return (3, bytes(x.b))
+    if hasattr(x, "__lt__") and type(x).__lt__ is not object.__lt__ and hasattr(x, "v"):
+        return (4, x.v)                       # a model object that defines its own order by content
     return (1, getattr(x, "addr", None) if isinstance(getattr(x, "addr", None), int) else id(x))
 
 
@@ -276,6 +303,67 @@ class MapObj(Vec):
     def find(self, key):
         i, hit = self._pos(key)
         return It(self, i if hit else len(self.items))
+
+
+class CmpSet(SetObj):
+    """std::set with a comparator of the repository (a function object whose operator() is interpreted): elements are kept in
+    the order the comparator gives; two elements are the same iff neither is less than the other"""
+    def __init__(self, ev, functor, items=None):
+        Vec.__init__(self, [], "set")
+        self.ev, self.functor = ev, functor
+        for x in items or []:
+            self.insert(x)
+
+    def copy_value(self):
+        c = CmpSet(self.ev, self.functor)
+        c.items = list(self.items)
+        return c
+
+    def _less(self, x, y):
+        return _apply(self.ev, self.functor, x, y)
+
+    def _lb(self, x):
+        lo, n = 0, len(self.items)
+        while n > 0:
+            step = n // 2
+            if self._less(self.items[lo + step], x):
+                lo += step + 1
+                n -= step + 1
+            else:
+                n = step
+        return lo
+
+    def insert(self, x):
+        i = self._lb(x)
+        if i < len(self.items) and not self._less(x, self.items[i]):
+            return (It(self, i), False)
+        self.items.insert(i, x)
+        return (It(self, i), True)
+
+    def find(self, x):
+        i = self._lb(x)
+        return It(self, i if i < len(self.items) and not self._less(x, self.items[i]) else len(self.items))
+
+
+def _targs_of(t):
+    """top-level template arguments of `name<a, b<c, d>, e>`"""
+    i = t.find("<")
+    if i < 0 or not t.rstrip().endswith(">"):
+        return []
+    inner, out, depth, cur = t[i + 1:t.rstrip().rfind(">")], [], 0, ""
+    for ch in inner:
+        if ch in "<(":
+            depth += 1
+        elif ch in ">)":
+            depth -= 1
+        if ch == "," and depth == 0:
+            out.append(cur.strip())
+            cur = ""
+        else:
+            cur += ch
+    if cur.strip():
+        out.append(cur.strip())
+    return out
 
 
 class Buf:
@@ -661,7 +749,7 @@ def _vector_hooks():
         "method:size": lambda ev, o, a: len(o.items),
         "method:empty": lambda ev, o, a: not o.items,
         "method:at": lambda ev, o, a: _chk_at(o, a[0]),
-        "method:operator[]": lambda ev, o, a: _chk_idx(o, a[0], "operator[]"),
+        "method:operator[]": lambda ev, o, a: (o.items[o._pos(a[0])[0]][1] if o._pos(a[0])[1] else (_ for _ in ()).throw(Broken("read of a map element that was never stored"))) if isinstance(o, MapObj) else _chk_idx(o, a[0], "operator[]"),
         "method:front": lambda ev, o, a: _chk_idx(o, 0, "front()"),
         "method:back": lambda ev, o, a: _chk_idx(o, len(o.items) - 1, "back()"),
         "method:begin": lambda ev, o, a: It(o, 0),
@@ -676,10 +764,16 @@ def _vector_hooks():
         "method:emplace_back": lambda ev, o, a: o.items.append(_cp(a[0])) if len(a) == 1 else (_ for _ in ()).throw(Broken("emplace_back with %d arguments" % len(a))),
         "method:pop_back": lambda ev, o, a: (_chk_idx(o, len(o.items) - 1, "pop_back()"), o.items.pop())[1],
         "method:clear": lambda ev, o, a: o.items.clear(),
-        "method:insert": lambda ev, o, a: o.insert(a[0]) if isinstance(o, (SetObj, MapObj)) and len(a) == 1 else _insert(o, a),
+        "method:insert": lambda ev, o, a: (o.insert(a[0]) if isinstance(o, (SetObj, MapObj)) and len(a) == 1 else
+                                           ([o.insert(_cp(x)) for x in _elems(a[0], a[1])] and None if isinstance(o, (SetObj, MapObj)) and len(a) == 2 and isinstance(a[0], It) and isinstance(a[1], It)
+                                            else _insert(o, a))),
         "method:find": lambda ev, o, a: o.find(a[0]) if isinstance(o, (SetObj, MapObj)) else (_ for _ in ()).throw(Broken("find() on an unmodelled container")),
         "method:count": lambda ev, o, a: (1 if o.find(a[0]).pos < len(o.items) else 0) if isinstance(o, SetObj) else sum(1 for x in o.items if x == a[0]),
-        "method:emplace": lambda ev, o, a: _insert(o, a) if isinstance(o, Vec) and not isinstance(o, (SetObj, MapObj)) and len(a) == 2 and isinstance(a[0], It) else (_ for _ in ()).throw(Broken("emplace on an unmodelled container / argument list")),
+        "method:emplace": lambda ev, o, a: (o.insert((a[0], a[1])) if isinstance(o, MapObj) and len(a) == 2 else
+                                            (_insert(o, a) if isinstance(o, Vec) and not isinstance(o, (SetObj, MapObj)) and len(a) == 2 and isinstance(a[0], It) else
+                                             (_ for _ in ()).throw(Broken("emplace on an unmodelled container / argument list")))),
+        "std::ref<*": lambda ev, o, a: a[0],
+        "std::cref<*": lambda ev, o, a: a[0],
         "method:erase": lambda ev, o, a: _erase(o, a),
         "method:operator*": lambda ev, o, a: o.deref() if isinstance(o, It) else (o.load() if isinstance(o, Ptr) else o),
         "method:operator->": lambda ev, o, a: o.deref() if isinstance(o, It) else o,
@@ -799,6 +893,8 @@ class CxxEvaluator(Evaluator):
         Evaluator.__init__(self, h, globals_ or {}, ptr_lt=True, prog=prog)
         self.structs = structs or {}
         self.defaults = defaults or {}
+        self._dtor_cache = {}
+        self.owning_destroy = False       # opt-in: unique_ptr re-assignment destroys the old pointee (whole-engine interpretation)
         self.statics = {}          # function-local statics keep their value between calls of one evaluator
 
     def arith(self, op, a, b):
@@ -870,6 +966,18 @@ class CxxEvaluator(Evaluator):
         last = cls.split("::")[-1].split("<")[0]
         cands = [f for f in self.prog.funcs.values() if f.get("cls") == cls and f["n"] == last and len(f["params"]) == len(args)
                  and (f.get("body") is not None or f.get("inits"))] if self.prog is not None else []
+        if len(cands) > 1:
+            # overloads of one arity: the parameter type names the class (or a base) of the argument object
+            def fits(p_, a_):
+                t_ = (p_.get("t") or "")
+                ac = getattr(a_, "_cls", None)
+                if ac:
+                    names = [ac] + (self.prog.bases(ac) if hasattr(self.prog, "bases") else [])
+                    return any(n_ and n_.split("::")[-1] in t_ for n_ in names)
+                return True
+            fit = [f for f in cands if all(fits(p_, a_) for p_, a_ in zip(f["params"], args))]
+            if len(fit) == 1:
+                cands = fit
         if len(cands) == 1:
             return self.construct(cands[0], Obj(cls), list(args))
         o = Obj(cls)
@@ -890,6 +998,8 @@ class CxxEvaluator(Evaluator):
                     setattr(o, fl["n"], None)         # a default-constructed smart pointer is null (scalars stay indeterminate)
                 elif fl.get("n") and (fl.get("t") or "").startswith("std::vector<"):
                     setattr(o, fl["n"], Vec([], "vector"))
+                elif fl.get("n") and (fl.get("t") or "").startswith("nonstd::optional_lite::optional<"):
+                    setattr(o, fl["n"], Opt((fl["t"])[len("nonstd::optional_lite::optional<"):-1].strip()))
         defaults(cls)
         return o
 
@@ -943,7 +1053,105 @@ class CxxEvaluator(Evaluator):
             return Struct(t, {f: None for f in self.structs[t]})
         return None
 
+    def _dtor_of(self, obj):
+        cls = getattr(obj, "_cls", None)
+        if not cls or self.prog is None:
+            return None
+        key = ("dtor", cls)
+        if key not in self._dtor_cache:
+            last = cls.split("::")[-1].split("<")[0]
+            c = [f for f in self.prog.funcs.values() if f.get("cls") == cls and f["n"] == "~" + last and f.get("body") is not None]
+            self._dtor_cache[key] = c[0] if len(c) == 1 else None
+        return self._dtor_cache[key]
+
+    def run_dtor(self, obj):
+        d = self._dtor_of(obj)
+        if d is not None and not getattr(obj, "_destroyed", False):
+            obj._destroyed = True
+            self.call(d, obj, [])
+
+    def destroy(self, obj, depth=0):
+        """end of an object's lifetime: its destructor body, then its members in reverse declaration order (members held by value,
+        by optional or by unique_ptr are destroyed with it; shared_ptr members only drop a reference, which is not modelled)"""
+        if obj is None or depth > 12:
+            return
+        if isinstance(obj, Opt):
+            if obj.val is not None:
+                self.destroy(obj.val, depth + 1)
+            obj.val = None
+            return
+        if isinstance(obj, Vec) and not isinstance(obj, (SetObj, MapObj)):
+            return
+        if not isinstance(obj, Obj) or getattr(obj, "_dead", False):
+            return
+        obj._dead = True
+        self.run_dtor(obj)
+        rec = (self.prog.records.get(getattr(obj, "_cls", "")) if self.prog is not None else None) or {}
+        for fl in reversed(rec.get("fields", [])):
+            t = (fl.get("t") or "").replace("const ", "").strip()
+            v = getattr(obj, fl.get("n", ""), None) if fl.get("n") else None
+            if v is None:
+                continue
+            if t.startswith("nonstd::optional_lite::optional<") or t.startswith("std::unique_ptr<") or (self.prog is not None and t in self.prog.records):
+                if isinstance(v, (Obj, Opt)):
+                    self.destroy(v, depth + 1)
+
+    def opt_call(self, o, fn, args, e):
+        """member functions of nonstd::optional"""
+        if fn in ("operator bool", "has_value"):
+            return o.val is not None
+        if fn in ("operator->", "operator*", "value"):
+            if o.val is None:
+                raise OutOfBounds("access to the value of an empty optional at %s" % e.get("l"))
+            return o.val
+        if fn == "reset":
+            if o.val is not None:
+                self.destroy(o.val)
+            o.val = None
+            return None
+        if fn == "emplace":
+            if o.val is not None:
+                self.destroy(o.val)
+            t = o.elem_t
+            if t.startswith("std::basic_string<"):
+                o.val = StdStr.construct(args)
+            elif self.prog is not None and t in self.prog.records:
+                o.val = self.new_object(t, args)
+            elif len(args) == 1:
+                o.val = _cp(args[0])
+            else:
+                raise Broken("optional<%s>::emplace with %d arguments is not modelled" % (t, len(args)))
+            return o.val
+        if fn == "operator=":
+            v = args[0] if args else None
+            if isinstance(v, Sym) and "nullopt" in str(getattr(v, "q", v)):
+                v = None
+            if isinstance(v, Opt):
+                v = v.val
+            if o.val is not None and v is not o.val:
+                self.destroy(o.val)
+            o.val = _cp(v) if v is not None else None
+            return o
+        raise Broken("optional::%s is not modelled (at %s)" % (fn, e.get("l")))
+
     def block(self, s, env, this):
+        if isinstance(s, dict) and s.get("k") == "block":
+            # automatic objects of repository classes with a destructor are destroyed when the block is left, in reverse order of
+            # their declaration, whichever way it is left (RAII guards)
+            ids = [v["id"] for st in s.get("s", []) if isinstance(st, dict) and st.get("k") == "decl" for v in st["vars"] if not v.get("static")]
+            if not ids:
+                return Evaluator.block(self, s, env, this)
+            escaping = None
+            try:
+                return Evaluator.block(self, s, env, this)
+            except Ret as r:
+                escaping = r.v
+                raise
+            finally:
+                for vid in reversed(ids):
+                    o = env.get(vid) if not isinstance(env, LayerEnv) else dict.get(env, vid)
+                    if isinstance(o, Obj) and o is not escaping and self._dtor_of(o) is not None:
+                        self.destroy(o)
         if isinstance(s, dict) and s.get("k") == "decl":
             self.steps += 1
             for v in s["vars"]:
@@ -983,8 +1191,45 @@ class CxxEvaluator(Evaluator):
         if e is None:
             return None
         k = e.get("k")
+        if k == "call" and (e.get("f") or "").startswith("std::make_pair<") and len(e.get("a", [])) == 2 and self.hook_for(e["f"]) is self.hooks.get("std::make_pair<*"):
+            vals = [self.eval(a, env, this) for a in e["a"]]
+            for a in e["a"]:
+                self._null_moved_from(a, env, this)         # make_pair (std::move (p), ...) takes the pointer over
+            return (vals[0], vals[1])
+        if k == "call" and e.get("fn") == "emplace" and (e.get("cls") or "").startswith("std::map<") and e.get("obj") is not None and len(e.get("a", [])) == 2:
+            m = self.eval(e["obj"], env, this)
+            if isinstance(m, MapObj):
+                key, arg = self.eval(e["a"][0], env, this), self.eval(e["a"][1], env, this)
+                ta = _targs_of(e["cls"])
+                vt = ta[1] if len(ta) >= 2 else None
+                # the mapped value is constructed in place from the argument
+                if vt and self.prog is not None and vt in self.prog.records and getattr(arg, "_cls", None) != vt:
+                    arg = self.new_object(vt, [arg])
+                return m.insert((_cp(key), arg))
+        if k == "call" and (e.get("cls") or "").startswith("nonstd::optional_lite::optional<"):
+            tgt = e.get("obj") if e.get("obj") is not None else (e["a"][0] if e.get("a") else None)
+            o = self.eval(tgt, env, this) if tgt is not None else None
+            if isinstance(o, Opt):
+                rest = e.get("a", []) if e.get("obj") is not None else e.get("a", [])[1:]
+                return self.opt_call(o, e.get("fn"), [self.eval(a, env, this) for a in rest], e)
+        if k == "call" and (e.get("f") or "").startswith(("nonstd::optional_lite::operator==", "nonstd::optional_lite::operator!=")) and len(e.get("a", [])) == 2:
+            l_, r_ = self.eval(e["a"][0], env, this), self.eval(e["a"][1], env, this)
+            isnull = lambda z: z is None or (isinstance(z, Sym) and "nullopt" in str(getattr(z, "q", z))) or (isinstance(z, Opt) and z.val is None)
+            if isinstance(l_, Opt) or isinstance(r_, Opt):
+                if isnull(l_) or isnull(r_):
+                    eq = isnull(l_) and isnull(r_)
+                else:
+                    eq = self.truth(self.binop("==", l_.val if isinstance(l_, Opt) else l_, r_.val if isinstance(r_, Opt) else r_))
+                return eq if "operator==" in e["f"] else not eq
         if k == "other" and e.get("cls") in ("CompoundLiteralExpr", "MaterializeTemporaryExpr", "CXXBindTemporaryExpr", "ExprWithCleanups") and e.get("sub"):
             return self.eval(e["sub"][0], env, this)
+        if k == "ilist" and len(e.get("a", [])) == 1 and self.prog is not None:
+            # `T &r {obj}` / `T x {same_type_obj}`: list-initialisation from an object of the very type binds / copies that object
+            t1 = (e.get("t") or "").replace("const ", "").rstrip("& ").strip()
+            a0 = e["a"][0]
+            st0 = (a0.get("t") or "").replace("const ", "").rstrip("& ").strip() if isinstance(a0, dict) else ""
+            if t1 and t1 == st0 and t1 in self.prog.records:
+                return self.eval(a0, env, this)
         if k == "ilist" and (e.get("t") or "").replace("const ", "") not in self.structs and self.prog is not None:
             t = (e.get("t") or "").replace("const ", "")
             rec = self.prog.records.get(t)
@@ -1053,6 +1298,9 @@ class CxxEvaluator(Evaluator):
                 if d is not None:
                     return d
             if not e.get("a") and c.startswith("std::set<"):
+                ta = _targs_of(c)
+                if len(ta) >= 2 and self.prog is not None and ta[1] in self.prog.records:
+                    return CmpSet(self, self.new_object(ta[1]))
                 return SetObj()
             if not e.get("a") and c.startswith("std::map<"):
                 return MapObj()
@@ -1073,9 +1321,27 @@ class CxxEvaluator(Evaluator):
                     return Vec([_cp(x) for x in vals[0]], "vector")
                 if len(vals) == 1 and isinstance(vals[0], Vec):
                     return vals[0].copy_value()
+                fid_ = e.get("fid") or ""
+                if len(vals) == 2 and isinstance(vals[0], It) and isinstance(vals[1], It) and vals[0].vec is vals[1].vec:
+                    return Vec([_cp(x) for x in vals[0].vec.items[vals[0].pos:vals[1].pos]], "vector")       # vector (first, last)
+                if vals and isinstance(vals[0], int) and not isinstance(vals[0], bool) and "::vector(unsigned long" in fid_:
+                    # vector (n) / vector (n, value): n value-initialised elements, or n copies
+                    n_ = vals[0]
+                    if not (0 <= n_ <= 1 << 16):
+                        raise OutOfBounds("vector of %d elements at %s" % (n_, e.get("l")))
+                    if len(vals) == 2:
+                        return Vec([_cp(vals[1]) for _ in range(n_)], "vector")
+                    et = c[len("std::vector<"):].strip()
+                    if et.startswith(("std::unique_ptr<", "std::shared_ptr<")) or et.split(",")[0].rstrip().endswith("*"):
+                        return Vec([None] * n_, "vector")
+                    if tinfo(et.split(",")[0].strip()) is not None:
+                        return Vec([0] * n_, "vector")
                 raise Broken("vector constructor with unmodelled arguments at %s" % e.get("l"))
             if len(e.get("a", [])) == 1 and e.get("cm") and c.startswith(("std::shared_ptr<", "std::unique_ptr<", "std::__shared_ptr<")):
-                return self.eval(e["a"][0], env, this)         # copying/moving a smart pointer shares the pointee
+                v = self.eval(e["a"][0], env, this)         # copying/moving a smart pointer shares the pointee
+                if e.get("cm") == "move":
+                    self._null_moved_from(e["a"][0], env, this)
+                return v
             if len(e.get("a", [])) == 1 and (e.get("cm") or "__normal_iterator<" in c):
                 v = self.eval(e["a"][0], env, this)
                 return v.copy_value() if hasattr(v, "copy_value") else v
@@ -1200,6 +1466,21 @@ class CxxEvaluator(Evaluator):
                 exact = [f for f in cands if [norm(p_.get("t", "")) for p_ in f["params"]] == want]
                 if len(exact) == 1:
                     cands = exact
+            if len(cands) > 1:
+                # overloads of the same arity: keep those whose parameter kinds fit the argument values
+                def fits(p_, a_):
+                    t_ = (p_.get("t") or "").replace("const ", "").strip()
+                    smart = t_.startswith(("std::shared_ptr<", "std::unique_ptr<"))
+                    if isinstance(a_, (Vec,)):
+                        return not smart and (("vector" in t_) or ("seq_t" in t_) or ("set<" in t_) or ("map<" in t_))
+                    if isinstance(a_, bool) or (isinstance(a_, int)):
+                        return tinfo(t_.rstrip("&").strip()) is not None or t_ in ("size_t", "std::size_t")
+                    if isinstance(a_, StdStr):
+                        return "string" in t_
+                    return True
+                fit = [f for f in cands if all(fits(p_, a_) for p_, a_ in zip(f["params"], args))]
+                if len(fit) == 1:
+                    cands = fit
             if len(cands) == 1:
                 return self.construct(cands[0], Obj(T), args)
             if not cands and not args and T in self.prog.records:
@@ -1253,6 +1534,36 @@ class CxxEvaluator(Evaluator):
             return Ptr(env[e["id"]], 0)          # array-to-pointer decay
         return Evaluator.eval(self, e, env, this)
 
+    def _null_moved_from(self, a, env, this):
+        """a smart pointer that is move-constructed from `std::move (lvalue)` leaves the lvalue null"""
+        u = a
+        while isinstance(u, dict) and u.get("k") in ("cast", "paren") and isinstance(u.get("e"), dict):
+            u = u["e"]
+        if not (isinstance(u, dict) and u.get("k") == "call" and (u.get("f") or "").startswith("std::move<") and len(u.get("a", [])) == 1):
+            return
+        src = u["a"][0]
+        while isinstance(src, dict) and src.get("k") in ("cast", "paren") and isinstance(src.get("e"), dict):
+            src = src["e"]
+        if not isinstance(src, dict):
+            return
+        st = (src.get("t") or "")
+        if not st.replace("const ", "").startswith(("std::unique_ptr<", "std::shared_ptr<")):
+            return
+        try:
+            if src.get("k") in ("ref", "mem", "idx"):
+                self.store(src, None, env, this)
+            elif src.get("k") == "call" and src.get("fn") == "operator[]" and src.get("a"):
+                # member operator written infix: the container is the first argument
+                cont, idx = (src["obj"], src["a"][0]) if src.get("obj") is not None else ((src["a"][0], src["a"][1]) if len(src["a"]) == 2 else (None, None))
+                if cont is None:
+                    return
+                vec = self.eval(cont, env, this)
+                i = self.eval(idx, env, this)
+                if isinstance(vec, Vec) and isinstance(i, int) and 0 <= i < len(vec.items):
+                    vec.items[i] = None
+        except Broken:
+            pass
+
     def store(self, lhs, val, env, this):
         u = lhs
         while isinstance(u, dict) and u.get("k") == "cast":
@@ -1278,6 +1589,24 @@ class CxxEvaluator(Evaluator):
                 b.arith("+", i).store(val)
                 return
             raise Broken("store to a subscript the evaluator does not model")
+        if k == "call" and u.get("fn") == "operator[]" and u.get("a"):
+            cont_n, idx_n = (u["obj"], u["a"][0]) if u.get("obj") is not None else ((u["a"][0], u["a"][1]) if len(u["a"]) == 2 else (None, None))
+            if cont_n is not None:
+                cont = self.eval(cont_n, env, this)
+                if isinstance(cont, MapObj):
+                    key = self.eval(idx_n, env, this)
+                    i_, hit = cont._pos(key)
+                    if hit:
+                        cont.items[i_] = (cont.items[i_][0], val)
+                    else:
+                        cont.items.insert(i_, (_cp(key), val))
+                    return
+                if isinstance(cont, Vec) and not isinstance(cont, SetObj):
+                    i_ = self.eval(idx_n, env, this)
+                    if not (isinstance(i_, int) and 0 <= i_ < len(cont.items)):
+                        raise OutOfBounds("store to element %s of a vector of %d" % (i_, len(cont.items)))
+                    cont.items[i_] = val
+                    return
         if k == "call":
             tgt = self.eval(u, env, this)
             if hasattr(tgt, "assign_from"):
@@ -1297,7 +1626,10 @@ class CxxEvaluator(Evaluator):
             if isinstance(cur, StdStr) and isinstance(val, (StdStr, Ptr)) and not t.rstrip().endswith("*"):
                 cur.assign_from(val)
                 return
-            if hasattr(cur, "assign_from") and hasattr(val, "assign_from") and not t.rstrip().endswith("*") and type(cur) is type(val) and not isinstance(cur, (Ptr,)):
+            is_handle = t.replace("const ", "").strip().startswith(("std::shared_ptr<", "std::unique_ptr<"))       # assignment rebinds the pointer
+            if t.replace("const ", "").strip().startswith("std::unique_ptr<") and isinstance(cur, Obj) and cur is not val and self.owning_destroy:
+                self.destroy(cur)         # the object owned so far is deleted
+            if hasattr(cur, "assign_from") and hasattr(val, "assign_from") and not t.rstrip().endswith("*") and not is_handle and type(cur) is type(val) and not isinstance(cur, (Ptr,)):
                 cur.assign_from(val)       # value semantics: the object keeps its identity
                 return
             env[u["id"]] = val
@@ -1316,6 +1648,8 @@ class CxxEvaluator(Evaluator):
                 if hasattr(b, "on_store"):
                     val = b.on_store(u["n"], val)
                 cur = getattr(b, u["n"], None)
+                if (u.get("t") or "").replace("const ", "").strip().startswith("std::unique_ptr<") and isinstance(cur, Obj) and cur is not val and self.owning_destroy:
+                    self.destroy(cur)     # unique_ptr member re-assigned: the object owned so far is deleted
                 if isinstance(cur, StdStr) and isinstance(val, (StdStr, Ptr)):
                     cur.assign_from(val)          # assignment to a std::string member converts, the member stays a string
                     return
